@@ -532,8 +532,8 @@ def check_init(dic, cfg):
 
     fails = []
     init = cfg.get("init")
-    if cfg.get("_data") == "same":
-        return fails   # contemporaneous data set: the expectations below are those of the dated one
+    if cfg.get("_data") == "same" or str(cfg.get("_data", "")).startswith("cal"):
+        return fails   # contemporaneous / calendar data sets: the expectations below are those of the dated one
     if cfg.get("_cross") and init and not S.INIT_NEEDS[init](cfg):
         return fails   # a switch given with a model it is not documented for: no value is promised (the model must stay sound)
     TIPS, INTERNAL = [4.0, 3.0, 1.5, 1.0, 0.0, 0.0], [1.0, 2.0, 3.5, 5.0, 6.0]
@@ -743,7 +743,7 @@ def derived_start_violations(C, cfg, emitted, dic):
                             + ", ".join(f"{t}: {own[t][1] if own[t][1] is None else round(own[t][1], 4)}" for t in own)
                             + " (`-f` is documented only as 'frequencies': noted, not counted)")
     t = dic.get("tree")
-    if t is None or cfg.get("_data") in ("ymd", "same"):
+    if t is None or cfg.get("_data") in ("ymd", "same") or str(cfg.get("_data", "")).startswith("cal"):
         return fails
     # ---- branch lengths of the input tree (unrooted), BY TAXON NAME and by clade
     if init in ("brlens_init_tree", "keep") and not cfg.get("clock") and hasattr(t, "tree"):
@@ -881,9 +881,33 @@ def digest_diff(a, b, tol=1e-5):
     return [(k, a.get(k), b.get(k)) for k in sorted(set(a) | set(b)) if not same(a.get(k), b.get(k))]
 
 
+def calendar_violations(C, cfg, emitted, dic):
+    """calendar data sets: every emitted tip date is the calendar's decimal year of that taxon's date (oracle: datetime),
+    however the date was spelled"""
+    d = str(cfg.get("_data", ""))
+    if not d.startswith("cal"):
+        return []
+    k = int(d[3:])
+    want = {letter: C.decimal_year(ymd) for letter, ymd in zip("ABCDEF", C.CAL_SETS[k])}
+    taxa = dic.get("taxa")
+    if taxa is None:
+        return [("cli:calendar-date:no-taxa", "no taxa object loaded")]
+    got = {t.id[0]: float(t["date"]) for t in taxa if "date" in t}
+    bad = {C.CAL_SETS[k]["ABCDEF".index(x)]: (got.get(x), want[x]) for x in want if x not in got or not close(got[x], want[x], 1e-9)}
+    if bad:
+        sp = cfg.get("_spelling") or "caldec"
+        kind = sp.split(":")[0]
+        ymd, (g, w) = sorted(bad.items())[0]
+        return [(f"cli:calendar-date:{kind}", f"dates spelled as {sp}: {ymd} is emitted as {g!r}; the calendar gives {w!r} "
+                 f"(= year + days since Jan 1 / days in the year); {len(bad)} of 6 dates differ: {sorted(bad)}")]
+    return []
+
+
 def spelling_violations(C, cfg, emitted, dic, data):
     """a configuration whose dates are spelled another way emits the same model as the one that reads them from the names"""
     sp = cfg.get("_spelling")
+    if str(cfg.get("_data", "")).startswith("cal"):
+        return []
     if sp in (None, "names"):
         return []
     ref = dict(cfg, _spelling="names")
@@ -1114,6 +1138,7 @@ def _run_config(C, cfg, data):
             fails += check_extra(C, cfg, emitted, dic, data)
             fails += derived_start_violations(C, cfg, emitted, dic)
             fails += spelling_violations(C, cfg, emitted, dic, data)
+            fails += calendar_violations(C, cfg, emitted, dic)
         fails = pre + fails
     except Exception as e:  # noqa: BLE001
         tb = traceback.extract_tb(e.__traceback__)[-1]
@@ -1377,6 +1402,8 @@ def configs(ck):
         add(c, "date-spellings")
     for c in S.cross_model():
         add(c, "cross-model")
+    for c in S.calendar_dates():
+        add(c, "calendar-dates")
     for c in S.numeric_spellings():
         add(c, "numeric-spellings")
     for c in S.pairwise(ck.rng):
